@@ -11,8 +11,9 @@ LEVEL = {'diffx': 0, '.preamble': 1, '.meta': 1, '.change': 1, '..preamble': 2, 
 BLANKS = [b'\n', b'  \n', b'\t\n', b' \t \n', b'\x0b\n', b'\x0c\n']
 
 UNKNOWN_KEYS = ['x', 'my-option', 'X_1', 'zzz', 'Another-Key', 'q9', 'a_b-c']
-UNKNOWN_VALS = ['value', '1', '-5', '007', 'a/b', '/x', '1.0', 'text/x-diff', '_', '-', '.', 'A.b_c-d/e', '12abc', '1_0',
-                '7' * 4300, '7' * 4301, '-' + '3' * 4400]
+UNKNOWN_VALS = ['value', '1', '-5', '007', 'a/b', '/x', '1.0', 'text/x-diff', '_', '-', '.', 'A.b_c-d/e', '12abc', '1_0']
+# digit strings around CPython's int/str conversion limit (rare: the model's decimal printing is quadratic)
+UNKNOWN_LONG_VALS = ['7' * 4300, '7' * 4301, '-' + '3' * 4400]
 
 
 def conv(v):
@@ -340,7 +341,7 @@ def add_unknown_options(f, rng):
         key = rng.choice(UNKNOWN_KEYS)
         if key in have:
             continue
-        val = rng.choice(UNKNOWN_VALS)
+        val = rng.choice(UNKNOWN_LONG_VALS) if rng.random() < 0.02 else rng.choice(UNKNOWN_VALS)
         s['opts'].insert(rng.randint(0, len(s['opts'])), [key, val])
         added.setdefault(k, {})[key] = conv(val)
     return g, added
